@@ -6,6 +6,10 @@ ops
   {"op": "to_c", "exprs": [[code points of a Python expression source] ...]}
         -> the C++ text the real expression translator (_to_c_expr(src, {})) produces, as code
            points, or null when it raises
+  {"op": "check_ident", "names": [[code points] ...]}
+        -> per name 0 (parser._check_identifier returns the name) | 1 (ValueError) | [2, what] ; null: no such function
+  {"op": "exc_classes", "cases": [[setup, loop, [function bodies]] ...]}   trees in the encoding of coq/Wire/C06W.v op 11
+        -> per case the result of emitter._exception_classes, the struct / namespace lines and the catch headers of the real emit()
   {"op": "transpile", "sources": [...], "timeout": n}
         -> {"consts": {HEADER, LEN, LIST, LCD, SETUP_START, SETUP_END, LOOP_START, LOOP_END},
             "results": [{"ok": True, "cpp", "functions": [names], "helpers": [..],
@@ -218,6 +222,62 @@ def main():
             if isinstance(getattr(E, attr, None), str):
                 consts[key] = getattr(E, attr)
         json.dump({"consts": consts, "results": res}, sys.stdout)
+        return
+    if op == "check_ident":
+        # -> per name: 0 accepted (returns the name), 1 ValueError, [2, kind] anything else; null when the parser has no such function
+        chk = getattr(P, "_check_identifier", None)
+        out = []
+        for s in req["names"]:
+            n = "".join(chr(c) for c in s)
+            if chk is None:
+                out.append(None)
+                continue
+            try:
+                r = chk(n)
+                out.append(0 if r == n else [2, "returned " + repr(r)])
+            except ValueError:
+                out.append(1)
+            except BaseException as e:  # noqa
+                out.append([2, type(e).__name__])
+        json.dump(out, sys.stdout)
+        return
+    if op == "exc_classes":
+        # trees in the encoding of coq/Wire/C06W.v op 11, built with the real IR classes and put through the real emit():
+        # -> per case {"classes": what _exception_classes returns for setup + loop + function bodies,
+        #              "decls": the struct / namespace lines of the emitted text in text order, "catches": the catch headers in text order}
+        from Reduino.transpile import ast as A
+        res = []
+
+        def build(v):
+            if v[0] == 0:
+                return A.TryStatement(try_body=[build(x) for x in v[1]],
+                                      handlers=[A.CatchClause(exception=("".join(chr(c) for c in h[1]) if h[0] == 1 else None), target=None,
+                                                              body=[build(x) for x in h[2]]) for h in v[2]])
+            blocks = [[build(x) for x in b] for b in v[1]]
+            if not blocks:
+                return A.Sleep(ms=1)
+            if len(blocks) == 1:
+                return A.WhileLoop(condition="(digitalRead(2) == 1)", body=blocks[0]) if len(blocks[0]) % 2 else A.ForRangeLoop(var_name="i", count=2, body=blocks[0])
+            return A.IfStatement(branches=[A.ConditionalBranch(condition="(digitalRead(3) == 1)", body=b) for b in blocks[:-1]], else_body=blocks[-1])
+
+        for case in req["cases"]:
+            try:
+                setup, loop, fns = [build(x) for x in case[0]], [build(x) for x in case[1]], [[build(x) for x in f] for f in case[2]]
+                prog = A.Program(setup_body=setup, loop_body=loop,
+                                 functions=[A.FunctionDef(name=f"fn{k}", params=[], body=b, return_type="void") for k, b in enumerate(fns)])
+                fn = getattr(E, "_exception_classes", None)
+                handled = list(setup) + list(loop)
+                for b in fns:
+                    handled.extend(b)
+                classes = [cps(c) for c in fn(handled)] if fn else None
+                cpp = E.emit(prog)
+                lines = cpp.splitlines()
+                decls = [cps(l) for l in lines if l.startswith("struct ") or l.startswith("namespace ")]
+                catches = [cps(l.strip()[len("catch ("):l.strip().index(")")]) for l in lines if l.strip().startswith("catch (")]
+                res.append({"ok": True, "classes": classes, "decls": decls, "catches": catches, "cpp": cpp})
+            except BaseException as e:  # noqa
+                res.append({"ok": False, "exc": type(e).__name__, "msg": str(e)[:300]})
+        json.dump(res, sys.stdout)
         return
     raise SystemExit("unknown op " + op)
 
